@@ -285,6 +285,12 @@ def do_replay(prop, P, path):
 def run_check(prop, P, tier, seed):
     t0 = time.time()
     programs = P["programs"].get(tier) or P["programs"]["quick"]
+    if tier == "thorough":
+        # the thorough tier contains the quick tier: quick programs that are not literally
+        # among the thorough ones (same harness, same parameters) run after them
+        key = lambda x: (x.get("pkg"), x.get("harness"), json.dumps(x.get("params") or {}, sort_keys=True))
+        have = {key(x) for x in programs}
+        programs = list(programs) + [x for x in P["programs"]["quick"] if key(x) not in have]
     work = os.path.join(VERIF, "work", "%s-%s" % (prop, tier))
     shutil.rmtree(work, ignore_errors=True)
     os.makedirs(work, exist_ok=True)
